@@ -406,7 +406,14 @@ fn oracle(log: &[Obs], set_order: &[String], versions: &BTreeMap<String, String>
             format!("sent: {:?}", got_nz.iter().map(|r| parse(r)).collect::<Vec<_>>()),
         );
     }
-    let mut seen_ids: Vec<usize> = reqs.iter().filter(|r| r.kind == ReqKind::UpdateCheck).map(|r| r.request_id.unwrap_or(usize::MAX)).collect();
+    // every request of the session - each update-check attempt and each report - has its own request id
+    let mut seen_ids: Vec<usize> = vec![];
+    for a in reqs.iter().filter(|r| r.kind == ReqKind::UpdateCheck) {
+        match a.request_id {
+            Some(i) if !seen_ids.contains(&i) => seen_ids.push(i),
+            other => return bad("update-check attempt without a fresh request id", format!("req#{} {other:?}", a.idx)),
+        }
+    }
     for r in &reports {
         if r.session != uc.session || r.session.is_none() {
             return bad("event report not in the session of the update check", format!("req#{}", r.idx));
